@@ -289,6 +289,8 @@ struct Case {
     selection: Vec<String>,
     /// the builder reaches its final configuration directly (0) or through an earlier, different setting (1, 2)
     detour: u8,
+    /// how the iterator is consumed: 0 next(); 1 nth(0); 2 two iterators advanced by nth(1), merged; 3 collect()
+    walk: u8,
 }
 
 fn build_case<T: Target>(ch: &mut Chooser, origin: P, h: usize, w: usize, mode: HMode) -> Option<Case> {
@@ -309,21 +311,22 @@ fn build_case<T: Target>(ch: &mut Chooser, origin: P, h: usize, w: usize, mode: 
     }
     let mut selection: Vec<String> = vec![];
     if mode == HMode::Custom {
-        // ordered selection of header names: every non-empty ordered subset (<= 3), optionally padded, optionally one unknown
+        // ordered selection of header names: every ordered subset (<= 3 names, also the empty one), optionally padded, optionally one unknown
         let avail: Vec<String> = if h > 0 { hdr.iter().map(|s| s.trim().to_string()).collect() } else { vec!["a".into()] };
-        let k = if T::ARITY > 0 && !T::BY_NAME { T::ARITY } else { 1 + ch.choose("selection-len", avail.len().min(3)) };
+        // (the last option is the empty selection: no column at all)
+        let k = if T::ARITY > 0 && !T::BY_NAME { T::ARITY } else { let n = avail.len().min(3); let i = ch.choose("selection-len", n + 1); if i == n { 0 } else { 1 + i } };
         if k > avail.len() { return None; }
         let mut left = avail.clone();
         for _ in 0..k {
             let i = ch.choose("selection-pick", left.len());
             selection.push(left.remove(i));
         }
-        match ch.choose("selection-variant", 4) {
+        if k > 0 { match ch.choose("selection-variant", 4) {
             0 => {}
             1 => { selection[0] = format!("  {} ", selection[0]); }
             2 => { selection[0] = format!("\t{}\u{a0}\n", selection[0]); }
             _ => { let at = selection.len() - 1; selection[at] = "zz".into(); }
-        }
+        } }
     }
     let alpha = cell_alphabet();
     let data_rows = if has_hdr { h.saturating_sub(1) } else { h };
@@ -333,7 +336,8 @@ fn build_case<T: Target>(ch: &mut Chooser, origin: P, h: usize, w: usize, mode: 
         grid.push(row);
     }
     let detour = if matches!(mode, HMode::None | HMode::All) { ch.choose("builder-reaches-its-setting-through-another-one", 3) as u8 } else { 0 };
-    Some(Case { origin, h, w, mode, grid, selection, detour })
+    let walk = if data_rows >= 1 { ch.choose("iterator-consumed-by(next,nth(0),nth(1) from two iterators,collect)", 4) as u8 } else { 0 };
+    Some(Case { origin, h, w, mode, grid, selection, detour, walk })
 }
 
 fn make_range(c: &Case) -> Range<Data> {
@@ -352,7 +356,7 @@ type Obs = (Result<(), E>, Vec<(usize, Option<usize>)>, Vec<Result<String, E>>);
 /// what the real code does
 fn observe<T: Target>(c: &Case, range: &Range<Data>) -> Obs {
     let sel: Vec<&str> = c.selection.iter().map(|s| s.as_str()).collect();
-    let it = match c.mode {
+    let make = || match c.mode {
         HMode::None if c.detour == 1 => RangeDeserializerBuilder::new().has_headers(true).has_headers(false).from_range::<Data, T>(range),
         HMode::None if c.detour == 2 => { static ONE: [&str; 1] = ["a"]; RangeDeserializerBuilder::with_headers(&ONE).has_headers(false).from_range::<Data, T>(range) }
         HMode::None => RangeDeserializerBuilder::new().has_headers(false).from_range::<Data, T>(range),
@@ -362,9 +366,24 @@ fn observe<T: Target>(c: &Case, range: &Range<Data>) -> Obs {
         HMode::Custom => RangeDeserializerBuilder::with_headers(&sel).from_range::<Data, T>(range),
         HMode::FromStruct => RangeDeserializerBuilder::with_deserialize_headers::<T>().from_range::<Data, T>(range),
     };
-    let mut it = match it { Ok(i) => i, Err(e) => return (Err(classify(&e)), vec![], vec![]) };
+    let mut it = match make() { Ok(i) => i, Err(e) => return (Err(classify(&e)), vec![], vec![]) };
     let mut hints = vec![];
     let mut items = vec![];
+    let conv = |r: Result<T, calamine::DeError>| match r { Ok(v) => Ok(format!("{v:?}")), Err(e) => Err(classify(&e)) };
+    match c.walk {
+        // every way of advancing must yield what repeated next() yields
+        1 => { while let Some(r) = it.nth(0) { items.push(conv(r)); if items.len() > 16 { break; } } return (Ok(()), hints, items); }
+        2 => {
+            let mut even = vec![]; let mut odd = vec![];
+            if let Some(r) = it.next() { even.push(conv(r)); while let Some(r) = it.nth(1) { even.push(conv(r)); if even.len() > 16 { break; } } }
+            if let Ok(mut it2) = make() { while let Some(r) = it2.nth(1) { odd.push(conv(r)); if odd.len() > 16 { break; } } }
+            let mut o = odd.into_iter();
+            for e in even { items.push(e); if let Some(x) = o.next() { items.push(x); } }
+            return (Ok(()), hints, items);
+        }
+        3 => { items = it.by_ref().take(17).map(conv).collect(); return (Ok(()), hints, items); }
+        _ => {}
+    }
     loop {
         hints.push(it.size_hint());
         match it.next() {
@@ -512,7 +531,7 @@ fn explore_target<T: Target>(rep: &Report, stats: &Mutex<Stats>, thorough: bool)
 }
 
 pub fn check(rep: &Report) {
-    rep.rule("choice tree: origin {(0,0),(2,3)} x height 0..3 x width 1..3 x header mode {none, all, custom selection, struct fields} x header names / ordered selections (padded with blanks or tab / no-break space / newline, unknown) x cell contents over 10 values x 14 target shapes (incl. a unit-variant enum, plain and optional); full product when the job's choice product is <= 1500 (thorough 60000), else all vectors with <= 2 (thorough 3) deviations from the default; non-trivial = at least one non-default choice; distinct = by printed case");
+    rep.rule("choice tree: origin {(0,0),(2,3)} x height 0..3 x width 1..3 x header mode {none, all, custom selection, struct fields} x header names / ordered selections (padded with blanks or tab / no-break space / newline, unknown) x iterator consumed by next / nth(0) / nth(1) / collect x cell contents over 10 values x 14 target shapes (incl. a unit-variant enum, plain and optional); full product when the job's choice product is <= 1500 (thorough 60000), else all vectors with <= 2 (thorough 3) deviations from the default; non-trivial = at least one non-default choice; distinct = by printed case");
     rep.assume("reference row mapper in props/c09.rs (documented conversion rules); Custom error messages are not compared, only the error class; CellError kind and absolute position are compared exactly");
     rep.assume("padded header cells are only combined with positional targets (the statement promises trimming for header selection, not for map keys)");
     let t = crate::thorough(&rep.tier);
